@@ -404,7 +404,10 @@ func (e *Engine) batchFunction(fe *FuncEnc, obls []*Obl, header string, dir stri
 	}
 	defer os.Remove(file)
 	start := time.Now()
-	budget := len(order)*perQueryMs/1000 + 20
+	budget := len(order)*perQueryMs/1000 + 5
+	if budget > 30 {
+		budget = 30
+	}
 	sp := solverZ3New
 	sp.args = func(t int) []string { return []string{fmt.Sprintf("-T:%d", t), fmt.Sprintf("-t:%d", perQueryMs)} }
 	r := runSolver(context.Background(), sp, file, budget)
